@@ -115,7 +115,12 @@ func OpenStore(tag string) (*storage.BadgerStore, func()) {
 	if err != nil {
 		panic(err)
 	}
-	dir, err := os.MkdirTemp("", "verif-"+tag+"-")
+	// a memory-backed directory when there is one: every write is its own
+	// synced Badger transaction
+	dir, err := os.MkdirTemp("/dev/shm", "verif-"+tag+"-")
+	if err != nil {
+		dir, err = os.MkdirTemp("", "verif-"+tag+"-")
+	}
 	if err != nil {
 		panic(err)
 	}
@@ -224,6 +229,37 @@ func (w *World) Node() *kernel.Node {
 type Alias struct {
 	vals [][]byte
 	rank map[string]int
+	ts   map[uint64]int
+	tsv  []uint64
+}
+
+// T prints a timestamp: large values are bound once per case by Wrap (Coq
+// converts a long decimal literal slowly).
+func (a *Alias) T(ts uint64) string {
+	if ts < 1000000 {
+		return fmt.Sprintf("%d%%N", ts)
+	}
+	if a.ts == nil {
+		a.ts = map[uint64]int{}
+	}
+	k, ok := a.ts[ts]
+	if !ok {
+		k = len(a.tsv)
+		a.ts[ts] = k
+		a.tsv = append(a.tsv, ts)
+	}
+	return fmt.Sprintf("t%d", k)
+}
+
+// Wrap binds the timestamps used by term.
+func (a *Alias) Wrap(term string) string {
+	var sb bytes.Buffer
+	sb.WriteString("(")
+	for k, v := range a.tsv {
+		fmt.Fprintf(&sb, "let t%d := %d%%N in ", k, v)
+	}
+	sb.WriteString(term + ")")
+	return sb.String()
 }
 
 func NewAlias() *Alias { return &Alias{rank: nil} }
@@ -313,7 +349,7 @@ func StateCtor(s string) string {
 }
 
 func recTerm(a *Alias, ts uint64, id crypto.Hash, key, payee crypto.Key, tx crypto.Hash, state string) string {
-	return fmt.Sprintf("(mkrec %d %d %d %d %d %s)", ts, a.Of(id[:]), a.Of(key[:]), a.Of(payee[:]), a.Of(tx[:]), StateCtor(state))
+	return fmt.Sprintf("(mkrec %s %d %d %d %d %s)", a.T(ts), a.Of(id[:]), a.Of(key[:]), a.Of(payee[:]), a.Of(tx[:]), StateCtor(state))
 }
 
 func (w *World) RecTerm(a *Alias, r Rec) string {
@@ -399,4 +435,64 @@ func CNodeKey(c *kernel.CNode) string {
 		return "nil"
 	}
 	return CNodesKey([]*kernel.CNode{c})
+}
+
+// ---- compact form of observed nodes ------------------------------------------------------
+
+// Indexer maps an observed CNode to the position of its record in SortedRecs.
+type Indexer struct {
+	w   *World
+	pos map[string]int
+	rec []Rec
+}
+
+func (w *World) Indexer() *Indexer {
+	ix := &Indexer{w: w, pos: map[string]int{}, rec: w.SortedRecs()}
+	for i, r := range ix.rec {
+		p := w.S(r.Signer).Pub
+		ix.pos[fmt.Sprintf("%d/%x", r.Ts, p[:])] = i
+	}
+	return ix
+}
+
+// Pos is the position of the stored record equal to c in every field, or an
+// out-of-range value if the node matches no stored record.
+func (ix *Indexer) Pos(c *kernel.CNode) int {
+	i, ok := ix.pos[fmt.Sprintf("%d/%x", c.Timestamp, c.Signer.PublicSpendKey[:])]
+	if !ok {
+		return 999999
+	}
+	r := ix.rec[i]
+	s := ix.w.S(r.Signer)
+	if c.IdForNetwork != s.Id || c.Payee.PublicSpendKey != s.Payee || c.Transaction != TxHash(r.Tx) || c.State != r.State {
+		return 999998
+	}
+	return i
+}
+
+func (ix *Indexer) Term(c *kernel.CNode) string {
+	return fmt.Sprintf("(I %d %d)", ix.Pos(c), c.ConsensusIndex)
+}
+
+func (ix *Indexer) List(cs []*kernel.CNode) string {
+	el := make([]string, len(cs))
+	for i, c := range cs {
+		el[i] = ix.Term(c)
+	}
+	return vh.List(el, "ix")
+}
+
+func (ix *Indexer) Opt(c *kernel.CNode) string {
+	if c == nil {
+		return vh.None("ix")
+	}
+	return vh.Some(ix.Term(c))
+}
+
+func (ix *Indexer) PosList(cs []*kernel.CNode) string {
+	el := make([]string, len(cs))
+	for i, c := range cs {
+		el[i] = vh.NU(uint64(ix.Pos(c)))
+	}
+	return vh.List(el, "N")
 }
